@@ -33,7 +33,7 @@ BASE_EVENTS = ["ack", "nack", "cer", "cer-wrong-host", "cer-wrong-realm", "cer-m
                "cea", "cea-wrong-host", "cea-wrong-realm", "cea-missing-avp", "cea-extra-flag",
                "dwr", "dwr-wrong-host", "dwr-pair", "dwa", "dpr", "dpr-wrong-host", "dpr-busy", "dpa",
                "app-req", "app-ans", "misaddressed-req", "local-stop", "fin", "rst", "idle", "restart", "app-req-pair-dwr", "app-req-binary",
-               "dwr-retx", "cer-retx"]
+               "dwr-retx", "cer-retx", "local-req", "app-ans-echo", "dpr-pair-app"]
 UNEXPECTED = {"cer-wrong-host", "cer-wrong-realm", "cer-missing-avp", "cer-extra-flag", "cea-wrong-host", "cea-wrong-realm",
               "cea-missing-avp", "cea-extra-flag", "dwr-wrong-host", "dpr-wrong-host", "misaddressed-req"}
 
@@ -45,19 +45,30 @@ GUIDE = {
               "app-req", "app-ans", "fin", "rst"],
     "ClosedS": ["cer", "cer", "cer", "cer", "cer-retx", "cer-wrong-host", "cer-wrong-realm", "cer-missing-avp", "cer-extra-flag", "dwr", "dpr", "app-req",
                 "cea", "dwa", "dpa", "fin", "rst"],
-    "Open": ["dwr", "dwr", "dwr-retx", "dwr-retx", "cer-retx", "dwr-pair", "dwr-wrong-host", "dwa", "dpr", "dpr-wrong-host", "dpr-busy", "dpa", "app-req", "app-req", "app-req-binary", "app-ans",
+    "Open": ["local-req", "local-req", "app-ans-echo", "app-ans-echo", "app-ans-echo", "dpr-pair-app", "dwr", "dwr", "dwr-retx", "dwr-retx", "cer-retx", "dwr-pair", "dwr-wrong-host", "dwa", "dpr", "dpr-wrong-host", "dpr-busy", "dpa", "app-req", "app-req", "app-req-binary", "app-ans",
              "app-req-pair-dwr", "misaddressed-req", "local-stop", "fin", "rst", "idle", "cer", "cer-wrong-host", "cea", "cea-wrong-host"],
     "Closing": ["dpa", "dpa", "dpa", "fin", "rst", "dwr", "app-req", "dwa"],
     "Ended": ["restart"],
 }
+# Open with a request of the local application outstanding / just answered: the peer's answer (and its duplicate) is likely next
+GUIDE["OpenP"] = ["app-ans-echo"] * 12 + GUIDE["Open"]
+GUIDE["OpenA"] = ["app-ans-echo"] * 8 + GUIDE["Open"]
 GUIDE_NEXT = {
     ("WCA", "ack"): "WICEA", ("WCA", "nack"): "Ended",
     ("WICEA", "cea"): "Open",
     ("ClosedS", "cer"): "Open", ("ClosedS", "fin"): "Ended", ("ClosedS", "rst"): "Ended",
     ("Open", "dpr"): "Ended", ("Open", "local-stop"): "Closing", ("Open", "fin"): "Ended", ("Open", "rst"): "Ended",
-    ("Open", "dpr-busy"): "Ended", ("Open", "dpr-wrong-host"): "Ended",
+    ("Open", "dpr-busy"): "Ended", ("Open", "dpr-wrong-host"): "Ended", ("Open", "dpr-pair-app"): "Ended",
     ("Closing", "dpa"): "Ended", ("Closing", "fin"): "Ended", ("Closing", "rst"): "Ended",
 }
+for _g in ("OpenP", "OpenA"):
+    for (_s, _e), _n in list(GUIDE_NEXT.items()):
+        if _s == "Open":
+            GUIDE_NEXT[(_g, _e)] = _n
+GUIDE_NEXT[("Open", "local-req")] = "OpenP"
+GUIDE_NEXT[("OpenA", "local-req")] = "OpenP"
+GUIDE_NEXT[("OpenP", "app-ans-echo")] = "OpenA"
+GUIDE_NEXT[("OpenA", "app-ans-echo")] = "Open"
 
 
 @st.composite
@@ -69,7 +80,7 @@ def cases(draw, base_heavy=False):
     evs = []
     for _ in range(n):
         pool = GUIDE[g]
-        if base_heavy and g == "Open":
+        if base_heavy and g in ("Open", "OpenP", "OpenA"):
             pool = ["dwr", "dwr-pair", "dwr-pair", "app-req-pair-dwr", "dpr", "app-req", "local-stop", "cer"]
         if draw(st.integers(0, 9)) == 0:
             pool = BASE_EVENTS                      # now and then an arbitrary event, to exercise the applicability filter
@@ -177,7 +188,7 @@ class Run:
         if e in ("cer", "cer-wrong-host", "cer-wrong-realm", "cer-missing-avp", "cer-extra-flag", "cer-retx"):
             # CER while the initiator waits (election, unimplemented per the statement) is excluded by construction
             return p <= {"Closed", "Open"} and not (self.role == "client" and p == {"Closed"})
-        if e == "local-stop":
+        if e in ("local-stop", "local-req"):
             return p == {"Open"}
         if e == "idle":
             return p == {"Open"}
@@ -370,6 +381,42 @@ class Run:
                 settle = 2.0
             elif poss0 == {"Closed"}:
                 det = dict(next="Closed", out={(257, False): 0}, delivered=0)
+            else:
+                nxt = poss0 | {"Closed"}
+        elif e == "local-req":
+            # the local application sends a request of its own (it becomes a pending request of the association)
+            from . import c05
+            m = c05.build_msgs({"subs": [{"msgs": [{"kind": "req", "size": 3}]}]})[0][0]
+            w.call(f"local-req-{len(self.applied)}", lambda: w.d.send_message(m))
+            det = dict(next="Open", out={})
+        elif e == "app-ans-echo":
+            # the peer answers the node's most recent application request with that request's identifiers; repeating the event
+            # makes the answer a duplicate (the request is no longer pending)
+            mine = [x for x in before if x["flags"] & 0x80 and x["cmd"] not in (257, 280, 282)]
+            if mine:
+                w.feed(app_answer(mine[-1]["hbh"], mine[-1]["e2e"], app=mine[-1]["app"], cmd=mine[-1]["cmd"]))
+            else:
+                w.feed(app_answer(hbh, e2e))
+            if poss0 == {"Open"}:
+                det = dict(next="Open", out={}, delivered=1)
+            elif poss0 == {"WaitICEA"}:
+                det = dict(next="Closed", out={}, delivered=0)
+                settle = 2.0
+            elif poss0 == {"Closed"}:
+                det = dict(next="Closed", out={(257, False): 0}, delivered=0)
+            else:
+                nxt = poss0 | {"Closed"}
+        elif e == "dpr-pair-app":
+            # a DPR immediately followed, in the same segment, by an application request
+            w.feed(peer_dpr(hbh, e2e) + app_request(ev["hbh2"], ev["e2e2"], dest_realm=LOCAL["realm"]))
+            settle = 6.0
+            if poss0 == {"Open"}:
+                self._req(282, hbh, e2e, self.generation)
+                det = dict(next="Closed", out={(282, False): 1})
+            elif poss0 == {"WaitICEA"}:
+                det = dict(next="Closed", out={})
+            elif poss0 == {"Closed"}:
+                det = dict(next="Closed", out={(282, False): 0, (257, False): 0})
             else:
                 nxt = poss0 | {"Closed"}
         elif e == "local-stop":
@@ -574,7 +621,7 @@ def _collect(shard, seed, n):
     return col
 
 
-EXH_ALPHABET = ["app-req-binary", "dwr", "dwr-pair", "dwr-wrong-host", "dwa", "dpr", "dpr-busy", "dpr-wrong-host", "dpa", "app-req", "app-ans",
+EXH_ALPHABET = ["local-req", "app-ans-echo", "dpr-pair-app", "app-req-binary", "dwr", "dwr-pair", "dwr-wrong-host", "dwa", "dpr", "dpr-busy", "dpr-wrong-host", "dpa", "app-req", "app-ans",
                 "misaddressed-req", "local-stop", "fin", "rst", "cer", "cer-wrong-host", "cea", "cea-wrong-realm", "restart", "ack", "nack"]
 
 
